@@ -250,11 +250,16 @@ func (u *Unit) script(o *Obligation, wantModel bool) string {
 	sb.WriteString("(set-logic ALL)\n")
 	sb.WriteString(preamble)
 	sb.WriteString(u.tc.structDecls())
-	if u.eng.usedSpec["shift8"] && u.concrete {
+	if u.usedSpec["shift8"] && u.concrete {
 		sb.WriteString("(define-fun shift8 ((a (Array Int (_ BitVec 8))) (o Int)) (Array Int (_ BitVec 8)) (lambda ((i Int)) (select a (+ o i))))\n")
-	} else if u.eng.usedSpec["shift8"] {
+	} else if u.usedSpec["shift8"] {
 		sb.WriteString("(declare-fun shift8 ((Array Int (_ BitVec 8)) Int) (Array Int (_ BitVec 8)))\n")
 		sb.WriteString("(assert (forall ((a (Array Int (_ BitVec 8))) (o Int) (i Int)) (! (= (select (shift8 a o) i) (select a (+ o i))) :pattern ((select (shift8 a o) i)))))\n")
+	}
+	for _, w := range []int{8, 16, 32, 64} {
+		if u.usedSpec[fmt.Sprintf("f2bv%d", w)] {
+			sb.WriteString(fmt.Sprintf("(declare-fun f2bv%d (Real) (_ BitVec %d))\n", w, w))
+		}
 	}
 	sb.WriteString(u.specPreamble(nil))
 	for _, it := range u.items[:o.NItems] {
